@@ -40,6 +40,9 @@ type EnumNode struct {
 }
 
 func newEnumNode(source SourceNode, parent parentNode, schema *schema_j5pb.Enum) (*EnumNode, error) {
+	if schema == nil {
+		return nil, walkerErrorf("enum has no definition")
+	}
 	return &EnumNode{
 		Schema:   schema,
 		rootType: newRoot(source, parent, schema.Name),
@@ -90,6 +93,9 @@ func newObjectSchemaNode(source SourceNode, parent parentNode, schema *schema_j5
 }
 
 func newObjectNode(source SourceNode, parent parentNode, wrapper *sourcedef_j5pb.Object) (*ObjectNode, error) {
+	if wrapper == nil || wrapper.Def == nil {
+		return nil, walkerErrorf("object has no definition")
+	}
 	node, err := newObjectSchemaNode(source.child("def"), parent, wrapper.Def)
 	if err != nil {
 		return nil, err
@@ -124,6 +130,9 @@ func newOneofSchemaNode(source SourceNode, parent parentNode, schema *schema_j5p
 }
 
 func newOneofNode(source SourceNode, parent parentNode, wrapper *sourcedef_j5pb.Oneof) (*OneofNode, error) {
+	if wrapper == nil || wrapper.Def == nil {
+		return nil, walkerErrorf("oneof has no definition")
+	}
 	node, err := newOneofSchemaNode(source.child("def"), parent, wrapper.Def)
 	if err != nil {
 		return nil, err
